@@ -243,6 +243,21 @@ theorem model_eq_reference_v30 (toks : List Tok) (t : Tree) (h : specParse level
     (hg : guardsPass (tableOf opTable_v30) t = true) : modelParse opTable_v30 toks = .ok t :=
   model_eq_reference _ _ _ _ _ _ (consistent_of_check _ _ _ consistent_v30) (pos_of_check _ _ _ consistent_v30) toks t h hg
 
+/-- the hand-written level tables never use `(` as a prefix operator (side condition of `ebnf_complete`), so for every
+version the reference parser decides derivability: `spec=ERR` in the driver means that no EBNF derivation exists -/
+theorem levels_paren_ok :
+    findLevel true "(" levels10 0 = none ∧ findLevel true "(" levels20 0 = none ∧
+    findLevel true "(" levels30 0 = none ∧ findLevel true "(" levels31 0 = none ∧
+    findLevel true "(" levels10impl 0 = none ∧ findLevel true "(" levels20impl 0 = none := by decide
+
+theorem reference_rejects_v31 (toks : List Tok) (h : specParse levels31 true opTable_v31 toks = none) :
+    ¬ ∃ t, derivable (gramOf levels31 true (syms opTable_v31)) 0 t = true ∧ t.yield = toks :=
+  ebnf_reject_no_derivation _ _ _ levels_paren_ok.2.2.2.1 toks h
+
+theorem reference_rejects_v10 (toks : List Tok) (h : specParse levels10 false opTable_v10 toks = none) :
+    ¬ ∃ t, derivable (gramOf levels10 false (syms opTable_v10)) 0 t = true ∧ t.yield = toks :=
+  ebnf_reject_no_derivation _ _ _ levels_paren_ok.1 toks h
+
 /-! ### unary lookup `?k` (3.1 [76] UnaryLookup ::= "?" KeySpecifier, a PrimaryExpr) -/
 
 /-- the `?` row of the 3.1 table has a prefix `nud` whose rbp is the largest binding power and whose next-token
